@@ -416,25 +416,41 @@ fn lockstep_nd(kind: usize, transverse: f64, beta: f64, seed: u64, k: usize, m: 
     pool_reset_log();
     let mut orig = nd_make(kind, seed, transverse);
     let mut b = nd_make(kind, seed, transverse);
+    // a dirty pool is remembered and the run goes on, so that the message can also say whether (and where) the
+    // restored trajectory actually leaves the uninterrupted one
+    let mut dirty: Option<String> = None;
     for i in 0..k {
         orig.timestep(beta);
         b.timestep(beta);
-        pool_check(&format!("step {}", i + 1))?;
-    }
-    let mut b = nd_restore(b)?;
-    if nd_fingerprint(&orig) != nd_fingerprint(&b) {
-        return Err(format!("right after restore at k={}: {} vs {}", k, nd_fingerprint(&orig), nd_fingerprint(&b)));
-    }
-    for s in 1..=m {
-        orig.timestep(beta);
-        b.timestep(beta);
-        pool_check(&format!("step k+{} (k={})", s, k))?;
-        let (fo, fb) = (nd_fingerprint(&orig), nd_fingerprint(&b));
-        if fo != fb {
-            return Err(format!("snapshot k={} step k+{}: {} vs {}", k, s, fo, fb));
+        if let Err(e) = pool_check(&format!("step {}", i + 1)) {
+            dirty.get_or_insert(e);
         }
     }
-    Ok(orig.get_n() > 0)
+    let mut b = nd_restore(b)?;
+    let mut diverged: Option<String> = None;
+    if nd_fingerprint(&orig) != nd_fingerprint(&b) {
+        diverged = Some(format!("right after restore at k={}: {} vs {}", k, nd_fingerprint(&orig), nd_fingerprint(&b)));
+    }
+    for s in 1..=m {
+        if diverged.is_some() {
+            break;
+        }
+        orig.timestep(beta);
+        b.timestep(beta);
+        if let Err(e) = pool_check(&format!("step k+{} (k={})", s, k)) {
+            dirty.get_or_insert(e);
+        }
+        let (fo, fb) = (nd_fingerprint(&orig), nd_fingerprint(&b));
+        if fo != fb {
+            diverged = Some(format!("snapshot k={} step k+{}: restored run leaves the uninterrupted one: {} vs {}", k, s, fo, fb));
+        }
+    }
+    match (diverged, dirty) {
+        (None, None) => Ok(orig.get_n() > 0),
+        (Some(d), None) => Err(d),
+        (None, Some(p)) => Err(format!("{} [trajectories still equal for {} steps after the snapshot at k={}]", p, m, k)),
+        (Some(d), Some(p)) => Err(format!("{} || cause: {}", d, p)),
+    }
 }
 
 // ------------------------------------------------------------------------------------------------
